@@ -413,3 +413,79 @@ fn c06_date_ym() {
     kani::cover!(y == 1);
     std::mem::forget(fmt);
 }
+
+// ------------------------------------------------------------- C05: two-field cross rules
+
+//@ unit c05_ddd_yyyy prop=C05,C06,C03 unwind=14 mem=12 timeout=3000 stubs=chrono::Local::now=>crate::verif_support::stub_local_now,crate::util::try_format=>crate::verif_support::stub_try_format bound="picture DDD YYYY (day of year BEFORE the year) with every 3+4 digit text: the date is the DDD-th day of THAT year (366 only in leap years), errors otherwise; the clock is not consulted"
+fn c05_ddd_yyyy() {
+    any_clock(1970, 9999);
+    let dg: [u8; 7] = kani::any();
+    let mut i = 0;
+    while i < 7 {
+        kani::assume(dg[i] <= 9);
+        i += 1;
+    }
+    let mut buf = [0u8; 7];
+    i = 0;
+    while i < 7 {
+        buf[i] = dg[i] + b'0';
+        i += 1;
+    }
+    let text = unsafe { std::str::from_utf8_unchecked(&buf[..7]) };
+    let fmt = fmt2(Field::DayOfYear, Field::Year(4));
+    let r: Result<SqlDate> = fmt.parse(text);
+    let doy = dg[0] as u32 * 100 + dg[1] as u32 * 10 + dg[2] as u32;
+    let y = dg[3] as i32 * 1000 + dg[4] as i32 * 100 + dg[5] as i32 * 10 + dg[6] as i32;
+    let ylen = if o_leap(y) { 366 } else { 365 };
+    if y >= 1 && doy >= 1 && doy <= ylen {
+        let mut mm = 1;
+        let mut rest = doy;
+        while mm < 12 && rest > o_dim(y, mm) {
+            rest -= o_dim(y, mm);
+            mm += 1;
+        }
+        match r {
+            Ok(x) => assert!(x.days() == crate::common::date2julian(y, mm, rest) - 2_440_588),
+            Err(_) => assert!(false),
+        }
+        kani::cover!(doy == 366);
+        kani::cover!(doy == 60 && o_leap(y));
+    } else {
+        assert!(r.is_err());
+        kani::cover!(doy == 366);
+    }
+    assert!(clock_reads() == 0);
+    std::mem::forget(fmt);
+}
+
+//@ unit c05_ampm_hh12 prop=C05,C06,C03 chunks=ints:0,1 quick=all unwind=10 mem=12 timeout=3000 stubs=chrono::Local::now=>crate::verif_support::stub_local_now,crate::util::try_format=>crate::verif_support::stub_try_format bound="12-hour time with its meridian in both field orders (parameter 0: AM HH12, 1: HH12 AM), meridian letters in any case, every two-digit hour text: 12 AM = 00h, 12 PM = 12h, h PM = h+12; hours outside 1..=12 are errors"
+fn c05_ampm_hh12(order: i64) {
+    any_clock(1970, 9999);
+    let pm: bool = kani::any();
+    let c0: bool = kani::any();
+    let c1: bool = kani::any();
+    let d0: u8 = kani::any();
+    let d1: u8 = kani::any();
+    kani::assume(d0 <= 9 && d1 <= 9);
+    let a = if pm { b'P' } else { b'A' };
+    let m0 = if c0 { a } else { a + 32 };
+    let m1 = if c1 { b'M' } else { b'm' };
+    let buf = if order == 0 { [m0, m1, d0 + b'0', d1 + b'0'] } else { [d0 + b'0', d1 + b'0', m0, m1] };
+    let text = unsafe { std::str::from_utf8_unchecked(&buf[..4]) };
+    let fmt = if order == 0 { fmt2(Field::AmPm(AmPmStyle::Upper), Field::Hour12) } else { fmt2(Field::Hour12, Field::AmPm(AmPmStyle::Upper)) };
+    let r: Result<Time> = fmt.parse(text);
+    let h = d0 as i64 * 10 + d1 as i64;
+    if h >= 1 && h <= 12 {
+        let h24 = if pm { if h == 12 { 12 } else { h + 12 } } else if h == 12 { 0 } else { h };
+        match r {
+            Ok(t) => assert!(t.usecs() == h24 * 3_600_000_000),
+            Err(_) => assert!(false),
+        }
+        kani::cover!(h == 12 && pm);
+        kani::cover!(h == 12 && !pm);
+    } else {
+        assert!(r.is_err());
+        kani::cover!(h == 13);
+    }
+    std::mem::forget(fmt);
+}
